@@ -97,9 +97,27 @@ pub fn check(c: &Case3, known: &Known, hazard: bool) -> Outcome {
                     let s = (c.lo - 1).min(n).max(0) as usize;
                     let e = c.hi.min(n).max(0) as usize;
                     let expect: &[Vec<_>] = if s < e { &det.res.rows[s..e] } else { &[] };
+                    // column order is C05's subject: align the two results by column name
+                    let perm: Option<Vec<usize>> = {
+                        let mut p = vec![];
+                        let mut ok = det.res.cols.len() == r2.cols.len();
+                        for n in &det.res.cols {
+                            let hits: Vec<usize> = r2.cols.iter().enumerate().filter(|(_, m)| *m == n).map(|(i, _)| i).collect();
+                            if hits.len() == 1 && !p.contains(&hits[0]) {
+                                p.push(hits[0]);
+                            } else {
+                                ok = false;
+                            }
+                        }
+                        if ok { Some(p) } else { None }
+                    };
                     let same = expect.len() == r2.rows.len()
                         && expect.iter().zip(&r2.rows).all(|(a, b)| {
-                            a.len() == b.len() && a.iter().zip(b).all(|(x, y)| cell_eq(x, y))
+                            a.len() == b.len()
+                                && (0..a.len()).all(|i| {
+                                    let j = perm.as_ref().map(|p| p[i]).unwrap_or(i);
+                                    cell_eq(&a[i], &b[j])
+                                })
                         });
                     if !same {
                         out.verdict = Verdict::Fail(
